@@ -11,10 +11,18 @@
 
 #define SENTINEL 0xAAAAAAAAu
 
-static struct archive *ar;   /* owner of the conversion objects of one case */
+/* owners of the conversion objects of one case.  Two handles: libarchive caches conversion objects
+ * per archive by the pair of charset names only, so to_charset("UTF-8") and from_charset("UTF-8")
+ * in a UTF-8 locale would share one object (and the normalisation flag of whichever came first). */
+static struct archive *ar_to, *ar_from;
 
-static void u_begin(void) { ar = NULL; }
-static void u_end(void) { if (ar) archive_read_free(ar); ar = NULL; }
+static void u_begin(void) { ar_to = ar_from = NULL; }
+static void u_end(void)
+{
+	if (ar_to) archive_read_free(ar_to);
+	if (ar_from) archive_read_free(ar_from);
+	ar_to = ar_from = NULL;
+}
 
 /* exact-size copy of the first n bytes; for n == 0 a zero-size block (ASan flags any access) */
 static char *exact(const unsigned char *b, size_t n)
@@ -80,9 +88,12 @@ static void pr_ms_bytes(const char *k, int r, const char *p)
 
 static struct archive_string_conv *get_sc(const char *dir, const char *cs)
 {
-	if (ar == NULL) ar = archive_read_new();
-	if (!strcmp(dir, "to")) return archive_string_conversion_to_charset(ar, cs, 1);
-	return archive_string_conversion_from_charset(ar, cs, 1);
+	if (!strcmp(dir, "to")) {
+		if (ar_to == NULL) ar_to = archive_read_new();
+		return archive_string_conversion_to_charset(ar_to, cs, 1);
+	}
+	if (ar_from == NULL) ar_from = archive_read_new();
+	return archive_string_conversion_from_charset(ar_from, cs, 1);
 }
 
 static void u_op(char *line)
